@@ -51,3 +51,17 @@ package iiss
 //@   loop 0: invariant true
 //@   loop 1: invariant true
 //@   loop 2: invariant true
+
+// a new stake is compared with everything that uses the stake - bond, delegation and the amount
+// still unbonding (UsingStake of that account, not a part of it) - and is stored in that account
+//@ func (es *ExtensionStateImpl) SetStake(cc, v) (err)
+//@   arith int
+//@   nosafety
+//@   modifies *
+//@   opt no-callee-pre
+//@   opt inline-none
+//@   requires es != nil && v != nil
+//@   callpre Int.Cmp#0: x == v && big(y) == ghost(using_val) && ghost(using_of) == ia
+//@   callpre AccountState.SetStake: v == caller_v && a == ia
+//@   callpre Withdraw: address == from && amount == diff
+//@   loop 0: invariant true
